@@ -354,6 +354,15 @@ func cmdReads(args []string) int {
 		for i, p := range probes {
 			ans[i] = hr.runProbe(p)
 			sxs[i] = ans[i].Sx
+			if f.Extra["via"] == "http" { // TIE-H: the printed answers are those of the v2 read endpoints (readshttp.go)
+				ha := hr.runProbeHTTP(p, i)
+				sxs[i] = ha.Sx
+				if ha.Sx != ans[i].Sx {
+					for _, id := range strings.Split(f.Extra["monitors"], ",") {
+						out.Violation(id, readsCaseSx(hr.Feat, hr.Ops, probes), fmt.Sprintf("probe %s: the v2 endpoint and the controller read differ [http-probe-differs]: http %s / controller %s", p.sx(), diffAt(ha.Sx, ans[i].Sx), diffAt(ans[i].Sx, ha.Sx)))
+					}
+				}
+			}
 			out.Stats["probe_"+p.Kind]++
 			if ans[i].Rejected {
 				out.Stats["probe_rejected"]++
